@@ -18,7 +18,7 @@ OK_STMTS = [
     'y = func() { return [1, 2] }(); println(y[1])', '# a comment', '', 'var q = 5', 'println(defined("args"), defined("nosuch"))',
 ]
 RUN_FAIL = ['undefined_name', 'throw "boom"', 'nil.x', '[1][5]', 'import("nosuch")', 'toInt()', 'x = 1; x()', 'nosuch.b = 1',
-            'throw "two\\nlines"', 'func() { return missing }()', 'range(1, 2, 0)', 'len(1)']
+            'throw "two\\nlines"', 'break', 'continue', 'if true { break }', 'load("nosuch.ank")', 'c = make(chan int64); close(c); close(c)', 'return 1; nosuch()', 'func() { return missing }()', 'range(1, 2, 0)', 'len(1)']
 PARSE_FAIL = ['x = (', '1 +* ', '"unterminated', 'if {', 'func(', '}', '@', 'a = 1 b = 2', "x = 'ab'", '/* open comment']
 ARGS = ["a", "b c", "1", "", "é", "x.ank", "-", "k=v"]
 FLAGGY = ["-x", "--", "-v", "-e", "-e=1", "-h", "--zzz", "-v=false", "-v=maybe"]
